@@ -53,6 +53,22 @@ func (x *Exec) execCall(fr *frame, v ssa.Value, cc *ssa.CallCommon, st *State, r
 	return rv, nst
 }
 
+// findCallSig: signature of the call of the function under contract that matches target[@k].
+func (x *Exec) findCallSig(target string) *types.Signature {
+	for _, b := range x.fn.Blocks {
+		for _, ins := range b.Instrs {
+			ci, ok := ins.(ssa.CallInstruction)
+			if !ok {
+				continue
+			}
+			if x.siteMatch(x.fn, target, callsiteName(ci.Common()), ins.Pos()) {
+				return ci.Common().Signature()
+			}
+		}
+	}
+	return nil
+}
+
 type accSpec struct {
 	idx  int
 	comp string
